@@ -3,11 +3,17 @@
 package filtering
 
 import (
+	"bytes"
 	"encoding/json"
 	"fmt"
 	"math/rand"
 	"net/http"
+	"os"
+	"path/filepath"
+	"strconv"
+	"strings"
 	"sync"
+	"syscall"
 	"time"
 )
 
@@ -223,4 +229,199 @@ func (o *c15ovRound) runScheduled(rng *rand.Rand) {
 	delete(want, rm.key)
 	o.gone = append(o.gone, o.url(rm.path))
 	o.judge(scenario, want)
+}
+
+// runScheduledVsForced is the scenario "scheduled-round-vs-forced-refresh": the
+// scheduled round (driven as in runScheduled) has downloaded an earlier list X
+// and is waiting for a later list Y that its server pauses inside a line, when
+// POST /control/filtering/refresh for the same kind arrives through the
+// registered handler.  X's server gives every request another version.  At
+// quiescence file, count and checksum of every list must belong to ONE served
+// version; a further refresh that brings that version again must be a no-op,
+// one that brings another version must update.
+func (o *c15ovRound) runScheduledVsForced(rng *rand.Rand) {
+	rep := o.rep
+	const scenario = "scheduled-round-vs-forced-refresh"
+	rep.Class("scenario:" + scenario)
+	tag := func(letter string) string { return fmt.Sprintf("r%d%s", o.n, letter) }
+	// Versions of one list have different numbers of rules.
+	used := map[int]bool{}
+	nRules := func() int {
+		for {
+			if n := 12 + rng.Intn(60); !used[n] {
+				used[n] = true
+
+				return n
+			}
+		}
+	}
+	kindAllow := rng.Intn(3) == 0
+	x1, y1, c1 := c15ovGen(rng, tag("x"), 1, nRules()), c15ovGen(rng, tag("y"), 1, nRules()), c15ovGen(rng, tag("c"), 1, nRules())
+	xB, xC, xD := c15ovGen(rng, x1.Tag, 2, nRules()), c15ovGen(rng, x1.Tag, 3, nRules()), c15ovGen(rng, x1.Tag, 4, nRules())
+	y2 := c15ovGen(rng, y1.Tag, 2, nRules())
+	px, py, pc := "/"+x1.Tag+".txt", "/"+y1.Tag+".txt", "/"+c1.Tag+".txt"
+	for p, t := range map[string]*c15ovText{px: x1, py: y1, pc: c1} {
+		o.srv.set(p, &c15ovRoute{body: t.Bytes})
+	}
+	idBase := 1 + rng.Intn(50000)
+	xy := []FilterYAML{
+		{Enabled: true, URL: o.url(px), Name: "list x", white: kindAllow, Filter: Filter{ID: idBase}},
+		{Enabled: true, URL: o.url(py), Name: "list y", white: kindAllow, Filter: Filter{ID: idBase + 4}},
+	}
+	other := []FilterYAML{{Enabled: true, URL: o.url(pc), Name: "list c", white: !kindAllow, Filter: Filter{ID: idBase + 9}}}
+	conf := &Config{
+		DataDir:                    o.dataDir,
+		FilteringEnabled:           true,
+		FiltersUpdateIntervalHours: 1,
+		HTTPClient:                 &http.Client{Timeout: 60 * time.Second, Transport: &http.Transport{MaxIdleConnsPerHost: 4}},
+		HTTPRegister:               func(method, u string, h http.HandlerFunc) { o.handlers[method+" "+u] = h },
+		ConfigModified:             func() {},
+		Filters:                    xy,
+		WhitelistFilters:           other,
+	}
+	if kindAllow {
+		conf.Filters, conf.WhitelistFilters = other, xy
+	}
+	d, err := New(conf, nil)
+	if err != nil {
+		rep.Inconcl("cannot build a DNSFilter: " + err.Error())
+
+		return
+	}
+	o.d = d
+	defer func() {
+		d.Close()
+		conf.HTTPClient.CloseIdleConnections()
+	}()
+	d.EnableFilters(false)
+	d.Start()
+	o.post("/control/filtering/refresh", `{"whitelist":false}`)
+	o.post("/control/filtering/refresh", `{"whitelist":true}`)
+	want := map[string]*c15ovWant{
+		"x": {URL: o.url(px), Allow: kindAllow, Text: x1, Role: "not-downloaded", Name: "list x"},
+		"y": {URL: o.url(py), Allow: kindAllow, Text: y1, Role: "not-downloaded", Name: "list y"},
+		"c": {URL: o.url(pc), Allow: !kindAllow, Text: c1, Role: "not-downloaded", Name: "list c"},
+	}
+
+	// The round: X answers B to the first request, C to the second, B again
+	// afterwards; Y pauses the first request and is complete for later ones.
+	gate := make(chan struct{})
+	o.srv.set(px, &c15ovRoute{body: xB.Bytes, later: []*c15ovRoute{{body: xC.Bytes}, {body: xB.Bytes}}})
+	paused := &c15ovRoute{body: y2.Bytes, split: y2.Split, partSent: make(chan struct{}), gate: gate,
+		later: []*c15ovRoute{{body: y2.Bytes}}}
+	o.srv.set(py, paused)
+	func() {
+		d.conf.filtersMu.Lock()
+		defer d.conf.filtersMu.Unlock()
+		for i := range d.conf.Filters {
+			d.conf.Filters[i].LastUpdated = d.conf.Filters[i].LastUpdated.Add(-2 * time.Hour)
+		}
+		for i := range d.conf.WhitelistFilters {
+			d.conf.WhitelistFilters[i].LastUpdated = d.conf.WhitelistFilters[i].LastUpdated.Add(-2 * time.Hour)
+		}
+	}()
+	roundDone := make(chan struct{})
+	go func() {
+		defer close(roundDone)
+		ivl := d.periodicallyRefreshFilters(5 * time.Second)
+		o.logf("scheduled round finished, next interval %s", ivl)
+	}()
+	select {
+	case <-paused.partSent:
+	case <-time.After(20 * time.Second):
+		rep.Event("paused_response_never_requested")
+	}
+	if o.waitPending(y2.LastWhole) {
+		rep.Event("rounds_where_the_paused_download_had_consumed_its_first_part")
+	}
+	// The administrator presses "check for updates".
+	code, body := o.post("/control/filtering/refresh", fmt.Sprintf(`{"whitelist":%t}`, kindAllow))
+	switch {
+	case code == http.StatusOK:
+		rep.Event("forced_refresh_during_a_scheduled_round:ran")
+	case strings.Contains(body, "already running"):
+		rep.Event("forced_refresh_during_a_scheduled_round:refused-as-already-running")
+	default:
+		rep.Event("forced_refresh_during_a_scheduled_round:other-answer")
+	}
+	o.srv.mu.Lock()
+	if o.srv.gatedWaiting > 0 {
+		rep.Event("rounds_with_complete_downloads_during_a_paused_one")
+	}
+	o.srv.mu.Unlock()
+	close(gate)
+	select {
+	case <-roundDone:
+	case <-time.After(90 * time.Second):
+		rep.Inconcl("the scheduled round did not finish")
+
+		return
+	}
+	want["x"] = &c15ovWant{URL: o.url(px), Allow: kindAllow, Text: xB, Alt: []*c15ovText{xC}, Role: "fast-download", OldProbe: x1.Probe, Name: "list x"}
+	want["y"] = &c15ovWant{URL: o.url(py), Allow: kindAllow, Text: y2, Role: "slow-download", OldProbe: y1.Probe, Name: "list y"}
+	o.judge(scenario, want)
+
+	// Which version does X hold now?
+	stat := func() (ino uint64, data []byte) {
+		p := filepath.Join(o.dataDir, filterDir, strconv.Itoa(idBase)+".txt")
+		if fi, serr := os.Stat(p); serr == nil {
+			if sys, ok := fi.Sys().(*syscall.Stat_t); ok {
+				ino = sys.Ino
+			}
+		}
+		data, _ = os.ReadFile(p)
+
+		return ino, data
+	}
+	_, data := stat()
+	held, otherVer := xB, xC
+	switch {
+	case bytes.Equal(data, xC.NF):
+		held, otherVer = xC, xB
+	case !bytes.Equal(data, xB.NF):
+		// Already reported by judge.
+		return
+	}
+	wit := func(extra map[string]any) map[string]any {
+		m := map[string]any{"round": o.n, "scenario": scenario, "events": o.log, "version_held_by_the_file": held.Ver}
+		for k, v := range extra {
+			m[k] = v
+		}
+
+		return m
+	}
+	refresh := func() { o.post("/control/filtering/refresh", fmt.Sprintf(`{"whitelist":%t}`, kindAllow)) }
+	// 1. The same version again: a no-op.
+	o.srv.set(px, &c15ovRoute{body: held.Bytes})
+	o.srv.set(py, &c15ovRoute{body: y2.Bytes})
+	ino0, _ := stat()
+	refresh()
+	ino1, data1 := stat()
+	rep.Event("refreshes_with_the_version_already_stored")
+	if ino1 != ino0 || !bytes.Equal(data1, held.NF) {
+		rep.Violate("overlap:"+scenario+":refresh-with-the-stored-version-rewrote-the-file",
+			"the file held one served version completely, yet a refresh that brought exactly that version replaced the file (the recorded checksum was another version's)",
+			wit(map[string]any{"inode_before": ino0, "inode_after": ino1}))
+	}
+	want["x"] = &c15ovWant{URL: o.url(px), Allow: kindAllow, Text: held, Role: "same-content", Name: "list x"}
+	want["y"].OldProbe = ""
+	o.judge(scenario+":same-version-again", want)
+	// 2. The other version of the round, then a brand-new one: each must be
+	// stored.
+	for _, nv := range []*c15ovText{otherVer, xD} {
+		o.srv.set(px, &c15ovRoute{body: nv.Bytes})
+		refresh()
+		rep.Event("refreshes_with_another_version")
+		_, data2 := stat()
+		if !bytes.Equal(data2, nv.NF) {
+			rep.Violate("overlap:"+scenario+":refresh-with-another-version-did-not-update",
+				fmt.Sprintf("the server now serves version %d, the refresh left version %d on disk", nv.Ver, held.Ver),
+				wit(map[string]any{"served_now": c15Show(nv.Bytes), "stored": c15Show(data2)}))
+
+			return
+		}
+		want["x"] = &c15ovWant{URL: o.url(px), Allow: kindAllow, Text: nv, Role: "fast-download", OldProbe: held.Probe, Name: "list x"}
+		o.judge(scenario+":another-version", want)
+		held = nv
+	}
 }
